@@ -13,6 +13,7 @@ THEOREMS = [
     'Sourcer.C04_every_literal_skips',
     'Sourcer.C04_ignored_rule',
     'Sourcer.C04_leading_skip',
+    'Sourcer.C04_start_rule',
     'Sourcer.C04_no_other_skip_point',
     'Sourcer.C04_literal_then_skip',
     'Sourcer.C04_skip_maximal',
@@ -24,7 +25,7 @@ THEOREMS = [
 ]
 TIE_MODULES = ['Tie.Flags']
 ASSUMPTIONS = [
-    'start rule = the rule named start (any capitalisation); grammars without one are outside the check',
+    'start rule = the rule named start (any capitalisation), else the first rule that is not ignored (C04_start_rule); one grammar in five has none',
     'C04_lengthening is proved for one doubled character under explicit hypotheses on the tokens (literals do not contain it, token regexes neither match nor look at it, '
     'ignore regexes end at corresponding positions, no Backtrack); that a concrete regular expression satisfies RxStable / IgnoreAlts is a fact about the matcher (a parameter of the '
     'model) and is exercised by the lengthening correspondence on the implementation',
@@ -109,6 +110,11 @@ def build_jobs(tier, seed):
         where = rng.choice(['before', 'after', 'split'])
         start_kind = rng.choice(['plain', 'plain', 'class', 'classlet'])
         start_name = rng.choice(['start', 'Start', 'START'])
+        # one grammar in five has no rule called start: module-level parse then starts with the first rule that is not
+        # ignored - wherever the ignore declarations stand - and skips in front of it
+        no_start = rng.random() < 0.2
+        if no_start:
+            start_name = rng.choice(['Main', 'Begin', 'restart'])
         if start_kind == 'plain':
             e = body_expr(rng.choice([1, 2, 3]), leaves)
             ctxname, ctx = rng.choice(G.CONTEXTS[:8])
@@ -134,7 +140,7 @@ def build_jobs(tier, seed):
             decls = [start_decl] + helpers + ign_decls
         else:
             decls = ign_decls[:1] + [start_decl] + helpers + ign_decls[1:]
-        if rng.random() < 0.3:
+        if rng.random() < 0.3 and not no_start:
             # a non-start rule in front: the start rule is found by name, not by position
             decls = [('rule', 'Z', S('b'))] + decls
         text = render_grammar(decls, bm)
@@ -150,8 +156,8 @@ def build_jobs(tier, seed):
         req, rxs = prep_request(decls, bm)
         jobs.append({'id': len(jobs), 'text': text, 'bm': bm, 'cases': inputs_cache[key],
                      'entries': [start_name], 'prep_entry': start_name, 'prep_request': req, 'prep_rx': rxs, 'lengthen': stretch,
-                     'fuel': 160,
-                     'meta': {'ctx': f'{start_kind}/{where}/{len(igs)}ign', 'kinds': [], 'depth': 0}})
+                     'fuel': 160, 'module_parse': no_start,
+                     'meta': {'ctx': f'{start_kind}/{where}/{len(igs)}ign' + ('/nostart' if no_start else ''), 'kinds': [], 'depth': 0}})
     return jobs
 
 
